@@ -102,6 +102,13 @@ def harnesses(tier):
                        units=['repo:mmd.c', 'repo:token.c', 'repo:object_pool.c', 'repo:stack.c', 'repo:char.c'],
                        unwind=LN + 6, unwindset=['main.0:45', 'main.1:45', 'main.2:45'], timeout=600 if tier == 'quick' else 3000, mem_gb=4 if tier == 'quick' else 14, functional=True,
                        desc='mmd_assign_line_type, first token %s: the line gets a kind from the emitted set for any second token, source bytes, scanner answers, extensions' % k))
+    for k in ('NON_INDENT_SPACE', 'TEXT_PLAIN'):
+        # a line that holds nothing but its leading blank (the unterminated last line "  "): no second token to look at.  Run with all
+        # pointer checks (the functional instances above run without them)
+        hs.append(dict(name='c02_linetype_only_' + k.lower(), src='c02/linetype.c', defs=dict(N=LN, T1=k, ONE_TOKEN=1, ONLY_BLANK=1), prepare=gen_terminals, pool_off=True,
+                       units=['repo:mmd.c', 'repo:token.c', 'repo:object_pool.c', 'repo:stack.c', 'repo:char.c'],
+                       unwind=LN + 6, unwindset=['main.0:45', 'main.1:45', 'main.2:45'], timeout=600, mem_gb=6, nobody_ok='*', hunt=60,
+                       desc='mmd_assign_line_type on a line consisting of one %s token only: no missing second token is dereferenced (all pointer checks on)' % k))
     hs.append(dict(name='c02_defblock_retyped', src='c02/defblock.c', defs=dict(DS_CAP=12), pool_off=True,
                    units=[dict(src='repo:writer.c', remove=['footnote_new', 'definition_extract', 'strip_leading_whitespace', 'clean_string_from_range'], cflags=['-include', 'vh_libc.h']), 'repo:token.c', 'repo:stack.c', 'repo:object_pool.c', 'repo:char.c', 'common/ds_model.c'],
                    unwind=12, timeout=600, mem_gb=6, functional=True, replay=False,
@@ -118,6 +125,11 @@ def harnesses(tier):
                        units=[dict(src=unit, cflags=['-Dexit=verif_exit', '-Dfprintf=verif_fprintf'], remove=trees), 'repo:token.c', 'repo:stack.c', 'repo:object_pool.c', 'repo:char.c', 'common/ds_null.c'],
                        nobody_ok='*', ignore_failed=['precondition_instance', 'no-body'], unwinding_assertions=False, object_bits=12, timeout=1500, mem_gb=8, functional=True, replay=False,
                        desc='%s: no published token kind reaches the unknown-token escape or exit()' % fn))
+    hs.append(dict(name='c02_tokenize_lines', src='c15/toklines.c', defs=dict(SPAN=2), pool_off=True,
+                   units=[dict(src='repo:mmd.c', remove=['mmd_assign_line_type']), 'repo:token.c', 'repo:object_pool.c', 'repo:stack.c', 'repo:char.c'],
+                   unwind=6, timeout=900, mem_gb=8, functional=True,
+                   bounds='range of 0..2 bytes at offset 0..2, any lexer behaviour inside the contract of c15_lexer_spans, any line kinds, all extension words (c15_tokenize_lines: 3..4 bytes)',
+                   desc='mmd_tokenize_string: every source byte of the range lands in exactly one token of exactly one classified line under the root (nothing dropped before parsing)'))
     return hs
 
 def stack_ranking(tier):
